@@ -149,6 +149,7 @@ pub fn report_to_result(sc: &Scenario, rep: RunReport, restarted_only: bool) -> 
     r.add("baton_handed_on_because_holder_blocked_on_a_lock", s.lock_handovers);
     r.add("burst_operations", s.bursts);
     r.add("burst_calls_checked_against_history_free_sampler", s.burst_calls);
+    r.add("bursts_longer_than_65536_calls", s.long_bursts);
     r.add("restarts", s.restarts);
     r.add("restarts_published", s.restarts_published);
     r.add("probe_restart_while_other_caller_midcall", s.restart_while_other_midcall);
